@@ -45,6 +45,11 @@ def run(ctx):
             extra.append({"src": "find all exactly %d %s" % (n, body), "texts": long_texts})
             extra.append({"src": "find all 'x' at least %d %s ';'" % (n, body), "texts": long_texts})
             extra.append({"src": "find all between %d and %d %s 'b'" % (n, n + 2, body), "texts": long_texts})
+    # the scan between attempts: every start offset is tried, one byte after the other - also through CR LF pairs, tabs and runs of newlines
+    # (line counting steps over them; the search must not)
+    crlf_texts = ["a\r\nb", "\r\n", "\r\n\r\n", "a\r\n\r\nb", "\n\r\n", "\r\r\n", "ab\r\ncd\r\n", "\r", "a\rb", "\t\n\ta"]
+    for p in ("'\n'", "any", "whitespace", "line start any", "line end", "not 'a'", "'\n' maybe 'b'", "in '\n', 'b'", "at least 1 whitespace", "line start", "'\r' or '\n'"):
+        extra.append({"src": "find all " + p, "texts": crlf_texts})
     # several stored patterns with DIFFERENT predicates asked about the same piece of text within one attempt (alternation, nesting, one after the other):
     # each verdict belongs to its own predicate and its own candidate
     preds = ["matchLength == 1", "matchLength == 2", "matchLength > 1", "match == 'a'", "match != 'ab'", "match < 'b'", "false", "true", "(match % 2) == 0", "(match % 3) == 0"]
